@@ -56,7 +56,16 @@ def sub_document(sg, rng, dg):
     from gen import tstr, print_value
     decl = ("(" + ", ".join(f"${n}: {tstr(vars_[n][0])}" + (f" = {print_value(vars_[n][1])}" if vars_[n][1] else "") for n in names) + ")") if names else ""
     extra = "query Other { __typename }\n" if rng.random() < 0.35 else ""
-    q = extra + f"subscription S{decl} {{ {body} }}" + "".join(f"\nfragment {fr[0]} on {fr[1]} {fr[2]}" for fr in dg.frags if fr[0] in seen)
+    # the single root field may be reached through fragments at the operation root (still one root field)
+    root_frag = ""
+    k = rng.random()
+    if k < 0.15: body = "... { " + body + " }"
+    elif k < 0.3: body = "... on Subscription { " + body + " }"
+    elif k < 0.45:
+        root_frag = "\nfragment RootF on Subscription { " + body + " }"; body = "...RootF"
+    elif k < 0.52:
+        root_frag = "\nfragment RootF on Subscription { ... on Subscription { " + body + " } }"; body = "... { ...RootF }"
+    q = extra + f"subscription S{decl} {{ {body} }}" + "".join(f"\nfragment {fr[0]} on {fr[1]} {fr[2]}" for fr in dg.frags if fr[0] in seen) + root_frag
     return q, f, {n: vars_[n] for n in names}
 
 async def explore(tier, seed, m):
